@@ -266,14 +266,14 @@ func newLive(sid, side string, store *memory.Storage, r *rand.Rand) (*live, stri
 // ---------------------------------------------------------------- history generation + oracles
 
 type hist struct {
-	r        *rand.Rand
-	o        *hout.Out
-	l        *live
-	ops      []string // op lines of this history (replay)
-	peerSeq  int      // next sequence number the simulated peer uses
-	everOK   bool     // an acceptable Logon has been processed while waiting
-	sent     map[int][]byte
-	lastSent int
+	r         *rand.Rand
+	o         *hout.Out
+	l         *live
+	ops       []string // op lines of this history (replay)
+	peerSeq   int      // next sequence number the simulated peer uses
+	everOK    bool     // an acceptable Logon has been processed while waiting
+	sent      map[int][]byte
+	lastSent  int
 	ownLogout bool
 }
 
